@@ -190,3 +190,21 @@ def check(case, obs):
             if [j for j in range(D) if j not in sc]:
                 unc = [j for j in range(D) if j not in sc][0]
                 obs.claim('refuse', raised(call(f, data, names[unc])), 'returned callable converted a channel without curve')
+            # the calibration is by channel NAME: applied to a sample whose columns are laid out differently from the
+            # bead file's, each named channel still gets its own curve
+            if all(isinstance(c_, str) for c_ in sc_ch) and req and D >= 2:
+                rev = d[:, list(range(D))[::-1]]
+                o2 = call(f, rev, [names[j] for j in req])
+                ok2 = not raised(o2) and np.asarray(o2).shape == x.shape
+                if ok2:
+                    r2 = np.asarray(o2)
+                    for j in range(D):
+                        colv = r2[:, D - 1 - j]
+                        if j in req:
+                            c, p = case['curves'][sc.index(j)]
+                            exp = c * np.sign(x[:, j]) * np.abs(x[:, j]) ** p
+                            ok2 = ok2 and bool(np.all(np.abs(colv - exp) <= 1e-12 * np.abs(exp)))
+                        else:
+                            ok2 = ok2 and bool(np.array_equal(colv, x[:, j]))
+                obs.claim('partial', ok2, lambda: 'the callable returned by get_transform_fxn, applied by name to a sample with reversed '
+                          'column order: %r' % (o2 if raised(o2) else 'wrong columns converted',))
